@@ -46,6 +46,7 @@ TOL_MW = 1e-12        # exact mean-width relations with the same seed, x (width 
 TOL_GAMUT = 1e-9      # gamut relations, relative                                            (seen 3e-14)
 TOL_SELF = 1e-12      # gamut relative to itself                                             (seen 0)
 TOL_JSD = 1e-12       # divergence vs own evaluation, absolute                               (seen 3e-16)
+BAND = 1e-8           # indeterminate band of flat clouds: ratio of a rounding-noise d-volume to a k-volume (seen 6e-17)
 MAX_ASPECT = 30.0     # flat clouds of the property clauses: sqrt(largest / smallest variance) within the span
 P_FALSE = 1e-12       # failure probability of one Monte-Carlo comparison
 LOGP = math.log(2.0 / P_FALSE)
@@ -85,7 +86,7 @@ M = Monitor(
               "project.proj_P_for_hull", "estimator.ReceptorEstimator.compute_hull"],
     required_cells={"all": (["vol:d=%d" % d for d in range(1, 6)] + ["vol:class=" + k for k in VOL_CLASSES]
                             + ["vol:flat", "vol:full-rank", "vol:oracle=closed-form", "vol:oracle=shoelace",
-                               "vol:oracle=max-min", "vol:input=1-D array", "vol:pca-fallback"]
+                               "vol:oracle=max-min", "vol:input=1-D array", "vol:pca-fallback", "vol:flat:value-decided"]
                             + ["vol:flat:d=%d:k=%d" % (d, k) for d in range(2, 6) for k in range(1, d)]
                             + ["mw:d=%d" % d for d in range(1, 6)] + ["mw:class=" + k for k in set(MW_CLASSES)]
                             + ["mw:center=True", "mw:center=False", "mw:vectorized=True", "mw:vectorized=False",
@@ -94,7 +95,7 @@ M = Monitor(
                             + ["gamut:metric=width", "gamut:metric=volume", "gamut:center=True", "gamut:center=False",
                                "gamut:center_to_neutral=True", "gamut:superset:equal-rank",
                                "gamut:superset:lower-rank", "gamut:at_l1:slice", "gamut:at_l1:one-sided",
-                               "gamut:oracle=closed-form"]
+                               "gamut:oracle=closed-form", "gamut:flat:volume-decided"]
                             + ["est:kind=system", "est:kind=spectra", "est:metric=width", "est:metric=volume",
                                "est:lb=pos", "est:lb=zero", "est:chromatic-rank=full", "est:chromatic-rank=lower"]
                             + ["jsd:class=" + k for k in JSD_CLASSES]
@@ -300,16 +301,24 @@ def _lin_map(rng, k, cond):
     return _orth(rng, k) @ np.diag(s) @ _orth(rng, k).T
 
 
-def gen_volume(rng, i):
-    d = 1 + i % 5
-    cls = VOL_CLASSES[(i // 5) % len(VOL_CLASSES)]
-    flat = bool(d >= 2 and ((i // (5 * len(VOL_CLASSES))) % 2 == 1 or cls == "few-points"))
-    k = int(rng.integers(1, d)) if flat else d
-    if cls == "few-points":
-        if d >= 4:
-            k = int(rng.integers(1, d - 2))          # k+1 points < d-1
-        else:
-            cls = "simplex"
+VOL_FULL_CLASSES = ["box", "simplex", "cross", "random", "identical"]
+VOL_FLAT_CLASSES = ["box", "simplex", "cross", "random", "few-points"]
+
+
+def _gen_volume(rng, i, flat):
+    if flat:
+        d = 2 + i % 4
+        cls = VOL_FLAT_CLASSES[(i // 4) % len(VOL_FLAT_CLASSES)]
+        k = 1 + (i // (4 * len(VOL_FLAT_CLASSES))) % (d - 1)
+        if cls == "few-points":
+            if d >= 4:
+                k = int(rng.integers(1, d - 2))          # k+1 points < d-1
+            else:
+                cls = "simplex"
+    else:
+        d = 1 + i % 5
+        cls = VOL_FULL_CLASSES[(i // 5) % len(VOL_FULL_CLASSES)]
+        k = d
     want = None
     if cls == "identical":
         npts = int(rng.integers(1, 9))
@@ -355,26 +364,67 @@ def gen_volume(rng, i):
             "as1d": bool(d == 1 and rng.integers(2))}
 
 
+def gen_volume(rng, i):
+    return _gen_volume(rng, i, False)
+
+
+def gen_volume_flat(rng, i):
+    return _gen_volume(rng, i, True)
+
+
 def _volume_of(c, A):
     return _scalar(c, c.call(Mx.compute_volume, np.array(A, copy=True), _where="compute_volume"),
                    "compute_volume", "volume-result-type")
 
 
+def _in_band(a, b):
+    """Floating-point indeterminate band of rank-deficient clouds: a cloud that is flat in exact arithmetic carries
+    rounding noise of ~1e-16 x its coordinates; when qhull accepts that noise as thickness the code returns the
+    (correct) d-volume ~1e-13 or less of the literal input instead of the k-volume of the flat cloud next to it.  Two
+    values of which one is below BAND x the other are such a pair: not comparable, no verdict."""
+    lo, hi = min(abs(a), abs(b)), max(abs(a), abs(b))
+    return hi > 0 and lo <= BAND * hi
+
+
+class _Flat:
+    """comparison helper that routes pairs in the indeterminate band of flat clouds away from the verdict"""
+
+    def __init__(self, c, flat, cell):
+        self.c, self.flat, self.cell, self.hits = c, flat, cell, []
+
+    def band(self, a, b, what):
+        if self.flat and _in_band(a, b):
+            self.hits.append(what)
+            self.c.cell(self.cell)
+            return True
+        return False
+
+    def close(self, got, want, tol, what, mech, **detail):
+        if self.band(got, want, what):
+            return True
+        return _close(self.c, got, want, tol, what, mech, **detail)
+
+    def finish(self):
+        if self.hits:
+            self.c.note("indeterminate_band", self.hits[:6])
+            self.c.unmet("flat cloud in floating point: qhull took the rounding noise for thickness in one of the runs "
+                         "(d-volume of the literal input vs k-volume of the flat cloud; indeterminate)", abort=False)
+
+
 def chk_volume(inp, c):
     X, Y, d, k, cls = inp["X"], inp["Y"], int(inp["d"]), int(inp["k"]), inp["cls"]
-    flat = k < d
+    flat = 1 <= k < d
     n = len(X)
     c.cell("vol:d=%d" % d, "vol:class=" + cls, "vol:k=%d" % k, "vol:flat" if flat else "vol:full-rank")
-    if flat and k >= 1 and d >= 2:
-        c.cell("vol:flat:d=%d:k=%d" % (d, k))
-    if flat and d >= 2 and k >= 1:
-        c.cell("vol:pca-fallback")
+    if flat:
+        c.cell("vol:flat:d=%d:k=%d" % (d, k), "vol:pca-fallback")
     arg = (lambda A: A[:, 0]) if inp["as1d"] else (lambda A: A)
     if inp["as1d"]:
         c.cell("vol:input=1-D array")
     if flat and float(inp["aspect"]) > MAX_ASPECT:
         c.unmet("flat cloud with aspect ratio > 30:1 (probed in volume_extreme)")
     tol = TOL_VOL_FLAT if flat else TOL_VOL
+    fb = _Flat(c, flat, "vol:flat:indeterminate-band")
     few = (n < d - 1)
     if few:
         # fewer points than dimensions - 1: on the pinned tree the PCA fallback asks for more components than samples
@@ -397,41 +447,46 @@ def chk_volume(inp, c):
         else:
             c.cell("vol:oracle=max-min" if k == 1 else
                    "vol:oracle=closed-form" if cls in ("box", "simplex", "cross", "few-points") else "vol:oracle=shoelace")
-            _close(c, v0, want, tol * want, "volume equals the analytic k-volume of the convex hull within its affine span",
-                   "volume-value%s" % (":flat" if flat else ""), d=d, k=k, cls=cls)
+            if fb.close(v0, want, tol * want, "volume equals the analytic k-volume of the convex hull within its affine span",
+                        "volume-value%s" % (":flat" if flat else ""), d=d, k=k, cls=cls) and flat and not fb.hits:
+                c.cell("vol:flat:value-decided")
     scale_ref = max(v0, want or 0.0)
     rtol = tol * scale_ref
     # translation
     vt = _volume_of(c, arg(X + inp["t"]))
-    _close(c, vt, v0, rtol, "volume is invariant to translation", "volume-translation", d=d, k=k)
+    fb.close(vt, v0, rtol, "volume is invariant to translation", "volume-translation", d=d, k=k)
     # rotation
     vq = _volume_of(c, arg(X @ inp["Q"].T))
-    _close(c, vq, v0, rtol, "volume is invariant to rotation", "volume-rotation", d=d, k=k)
+    fb.close(vq, v0, rtol, "volume is invariant to rotation", "volume-rotation", d=d, k=k)
     # homogeneity
     s = float(inp["s"])
     vs = _volume_of(c, arg(X * s))
     if cls != "identical":
-        _close(c, vs, s ** k * v0, tol * s ** k * scale_ref, "volume is homogeneous: vol(sX) = s^k vol(X), k the affine rank",
-               "volume-homogeneity", d=d, k=k, s=s)
+        if not fb.band(vs / s ** k, v0, "homogeneity"):
+            _close(c, vs, s ** k * v0, tol * s ** k * scale_ref,
+                   "volume is homogeneous: vol(sX) = s^k vol(X), k the affine rank", "volume-homogeneity", d=d, k=k, s=s)
     else:
         c.require(vs == 0.0, "all points identical: volume is 0", mechanism="volume-identical", got=vs)
     # monotone under added points (within the span)
     if cls != "identical" and not few:
         vy = _volume_of(c, arg(np.vstack([X, Y])))
-        c.margin("volume monotone (relative decrease)", max(v0 - vy, 0.0), max(rtol, 1e-300))
-        c.require(vy >= v0 - rtol, "volume is non-decreasing when points are added", mechanism="volume-monotone",
-                  before=v0, after=vy, d=d, k=k)
+        if not fb.band(vy, v0, "monotone"):
+            c.margin("volume monotone (relative decrease)", max(v0 - vy, 0.0), max(rtol, 1e-300))
+            c.require(vy >= v0 - rtol, "volume is non-decreasing when points are added", mechanism="volume-monotone",
+                      before=v0, after=vy, d=d, k=k)
         # duplicates / convex mixtures of existing points do not change it
         lam = np.random.default_rng(n).dirichlet(np.ones(n), 3)
         vd = _volume_of(c, arg(np.vstack([X, lam @ X, X[:2]])))
-        _close(c, vd, v0, rtol, "adding convex mixtures and duplicates of existing points leaves the volume unchanged",
-               "volume-interior-points", d=d, k=k)
+        fb.close(vd, v0, rtol, "adding convex mixtures and duplicates of existing points leaves the volume unchanged",
+                 "volume-interior-points", d=d, k=k)
     c.nontrivial(k >= 2 and n > k + 1)
     c.note("volume", {"observed": v0, "oracle": want, "translated": vt, "rotated": vq,
                       "scaled/s^k": vs / s ** k if k else vs, "d": d, "affine_rank": k, "n_points": n})
+    fb.finish()
 
 
-M.add("volume", gen_volume, chk_volume, weight=4, min_held=200)
+M.add("volume", gen_volume, chk_volume, weight=2, min_held=100)
+M.add("volume_flat", gen_volume_flat, chk_volume, weight=2, min_held=100)
 
 
 # ================================================================== clause 2: compute_mean_width
@@ -679,6 +734,7 @@ def chk_gamut(inp, c):
 
         flat = rX < m - 1
         tol = TOL_VOL_FLAT if (flat and metric == "volume") else TOL_GAMUT
+        fb = _Flat(c, bool(1 <= rX < m - 1 and metric == "volume"), "gamut:flat:indeterminate-band")
         g0 = Gm(Xin)
         c.require(g0 >= 0, "gamut is non-negative", mechanism="gamut-negative", got=g0, metric=metric)
         g0b = Gm(Xin)
@@ -723,21 +779,21 @@ def chk_gamut(inp, c):
             notes["width_oracle"] = want
         # ---- invariant to the intensity scale (per-row positive factors)
         g1 = Gm(Xin * tin[:, None])
-        _close(c, g1, g0, tol * g0 + 1e-15, "gamut is invariant to the intensity scale of its input (per-row positive factors)",
-               "gamut-scale:" + metric, metric=metric)
+        fb.close(g1, g0, tol * g0 + 1e-15, "gamut is invariant to the intensity scale of its input (per-row positive factors)",
+                 "gamut-scale:" + metric, metric=metric)
         g1b = Gm(Xin * float(t[0]))
-        _close(c, g1b, g0, tol * g0 + 1e-15, "gamut is invariant to the intensity scale of its input (global factor)",
-               "gamut-scale:" + metric, metric=metric)
+        fb.close(g1b, g0, tol * g0 + 1e-15, "gamut is invariant to the intensity scale of its input (global factor)",
+                 "gamut-scale:" + metric, metric=metric)
         # ---- rows with zero total carry no chromaticity
         gz = Gm(Xz)
-        _close(c, gz, Gm(X), tol * g0 + 1e-15, "rows with zero total intensity do not change the gamut", "gamut-zero-rows:" + metric)
+        fb.close(gz, Gm(X), tol * g0 + 1e-15, "rows with zero total intensity do not change the gamut", "gamut-zero-rows:" + metric)
         # ---- relative to itself
         if rX >= 1 and g0 > 0:
             gs = Gm(Xin, relative_to=Xin.copy())
             _close(c, gs, 1.0, TOL_SELF, "gamut relative to itself equals 1", "gamut-self:" + metric, metric=metric)
             gs2 = Gm(Xin * t[0], relative_to=X[::-1].copy())
-            _close(c, gs2, 1.0, tol, "gamut relative to a rescaled / reordered copy of itself equals 1",
-                   "gamut-self-rescaled:" + metric, metric=metric)
+            fb.close(gs2, 1.0, tol, "gamut relative to a rescaled / reordered copy of itself equals 1",
+                     "gamut-self-rescaled:" + metric, metric=metric)
             nontriv = nontriv or m >= 3
         # ---- relative to a superset
         gsup = Gm(Xin, relative_to=S.copy())
@@ -747,13 +803,17 @@ def chk_gamut(inp, c):
         mech = "gamut-superset:" + metric
         if metric == "volume" and lower:
             mech = "gamut-volume-ratio-gt1:lower-rank-subset"
-        c.margin("gamut relative to a superset (excess over 1)" + (" [lower rank]" if (lower and metric == "volume") else ""),
-                 max(gsup - 1.0, 0.0), TOL_GAMUT)
-        c.require(gsup <= 1.0 + TOL_GAMUT, "gamut never exceeds 1 relative to a superset", mechanism=mech,
-                  got=gsup, metric=metric, chromatic_rank_subset=rX, chromatic_rank_superset=rS, m=m)
+        if not (not lower and fb.band(1.0, gsup, "superset of the same (lower) rank")):
+            c.margin("gamut relative to a superset (excess over 1)" + (" [lower rank]" if (lower and metric == "volume") else ""),
+                     max(gsup - 1.0, 0.0), TOL_GAMUT)
+            c.require(gsup <= 1.0 + TOL_GAMUT, "gamut never exceeds 1 relative to a superset", mechanism=mech,
+                      got=gsup, metric=metric, chromatic_rank_subset=rX, chromatic_rank_superset=rS, m=m)
         c.require(gsup >= 0.0, "gamut is non-negative", mechanism="gamut-negative", got=gsup, metric=metric)
         notes[metric] = {"absolute": g0, "rescaled_rows": g1, "vs_superset": gsup, "chromatic_rank": rX,
                          "superset_rank": rS}
+        if fb.flat and not fb.hits:
+            c.cell("gamut:flat:volume-decided")
+        fb.finish()
         # ---- slice at a given total
         if inp["do_slice"] and cls in ("generic", "mixtures"):
             a_out = float(inp["a_out"])
@@ -888,7 +948,8 @@ def chk_estimator(inp, c):
         tol = TOL_VOL_FLAT if (metric == "volume" and rP < m - 1) else TOL_GAMUT
         twin = _scalar(c, c.call(Mx.compute_gamut, P.copy(), relative_to=ref.copy(), metric=metric, seed=seed,
                                  _where="compute_gamut"), "compute_gamut", "gamut-result-type")
-        _close(c, g, twin, tol * max(twin, 1e-300) + 1e-12,
+        fb = _Flat(c, bool(metric == "volume" and 1 <= rP < m - 1), "est:flat:indeterminate-band")
+        fb.close(g, twin, tol * max(twin, 1e-300) + 1e-12,
                "the fraction equals gamut(absolute corner captures) / gamut(absolute single-wavelength captures)",
                "estimator-fraction-vs-absolute-captures:" + metric, metric=metric)
         ga = _scalar(c, c.call(est.compute_gamut, fraction=False, relative=False, metric=metric, seed=seed,
@@ -896,10 +957,11 @@ def chk_estimator(inp, c):
                      "estimator-gamut-result-type")
         twin_a = _scalar(c, c.call(Mx.compute_gamut, P.copy(), metric=metric, seed=seed, _where="compute_gamut"),
                          "compute_gamut", "gamut-result-type")
-        _close(c, ga, twin_a, tol * max(twin_a, 1e-300) + 1e-12,
+        fb.close(ga, twin_a, tol * max(twin_a, 1e-300) + 1e-12,
                "fraction=False returns the gamut of the absolute corner captures",
                "estimator-absolute-gamut:" + metric, metric=metric)
         notes[metric] = {"fraction": g, "twin": twin, "absolute": ga}
+        fb.finish()
         if metric == "width" and not degenerate:
             # slice at a total inside the range of the corner totals: still a subset of the reference
             l1 = P.sum(axis=1)
